@@ -328,18 +328,70 @@ def _to_unit_price(ctx, prog):
            "to_unit_price calls only multiplier(): %s" % [cs.short for cs in f.calls], where=f.where())
 
 
+def _flows(prog, cs, depth=0):
+    """What finally reaches one `Decimal::try_from_price(..)` call: list of (entry_fn, [arg strings]) — the call site's own
+    argument provenance, with arguments that are bare parameters of a NON-PUBLIC forwarding helper replaced by what each of
+    the helper's callers passes (one level), provided the helper is called on the caller's own `self`."""
+    f = cs.fn
+    args = [cs.arg_expr(i) for i in range(len(cs.args))]
+    pidx = {}
+    for i, a in enumerate(args):
+        if a.k == "param" and (f.locals[a.a[0] + 1][1] or "") != "self":
+            pidx[i] = a.a[0]
+    callers = [c for c in prog.callers_of(f.id) if not getattr(c, "is_closure_ref", False)]
+    if not pidx or depth > 0 or f.vis.lower().startswith("pub") or not callers:
+        return [(f, [str(a) for a in args])]
+    out = []
+    for c in callers:
+        sub = [str(a) for a in args]
+        ok_self = True
+        for i, pi in pidx.items():
+            sub[i] = str(c.arg_expr(pi))
+        # `self.x` inside the helper denotes the caller's `self.x` only if the helper runs on the caller's self
+        if f.arg_count and (f.locals[1][1] or "") == "self":
+            ok_self = str(c.arg_expr(0)) == "self"
+        out.append((c.fn, sub if ok_self else ["<helper called on %s>" % c.arg_expr(0)] + sub[1:]))
+    return out
+
+
+def _price_source(prog, e):
+    """`Decimal::try_from_price(X, ..)?` or `<non-public helper forwarding its parameter>(.., X, ..)?` -> str(X)"""
+    if e is None or e.k != "try":
+        return None
+    c = e.a[0]
+    if c.k != "call" or len(c.a) < 3:
+        return None
+    cs = c.a[2]
+    if short_path(cs.callee or "") == "Decimal::try_from_price":
+        return str(c.a[1][0])
+    g = prog.fns.get(cs.resolved) or prog.fns.get(cs.callee) or (prog.callees(cs) or [None])[0]
+    if g is None or g.vis.lower().startswith("pub"):
+        return None
+    inner = [x for x in g.calls if short_path(x.callee or "") == "Decimal::try_from_price"]
+    ex = g.exits()
+    if len(inner) != 1 or len(ex) != 1 or ex[0][2].k != "call" or ex[0][2].a[2] is not inner[0]:
+        return None
+    a0 = inner[0].arg_expr(0)
+    if a0.k != "param":
+        return None
+    return str(c.a[1][a0.a[0]])
+
+
 def _callers(ctx, prog):
     sites = [cs for g in prog.fns.values() for cs in g.calls if cs.callee and short_path(cs.callee) == "Decimal::try_from_price"]
+    n = 0
     for cs in sites:
-        a = [str(cs.arg_expr(i)) for i in range(len(cs.args))]
-        ok = len(a) == 4 and re.match(r"^TokenConfig::token_decimals\(\w+\)$", a[2]) is not None \
-            and re.match(r"^TokenConfig::precision\(\w+\)$", a[3]) is not None \
-            and not re.search(r"token_decimals|precision", a[1])
-        if cs.fn.short.startswith("PriceFeedPrice::"):
-            ok = ok and a[1] == "self.decimals" and re.match(r"^self\.(min_price|max_price|price)$", a[0]) is not None
-        ctx.ob("caller-args:%s:%s" % (cs.fn.short, a[0][:24]), ok,
-               "%s calls try_from_price(%s)" % (cs.fn.short, ", ".join(x[:60] for x in a)), where=cs.where())
-    ctx.floor("caller-args", len(sites), 4)
+        for entry, a in _flows(prog, cs):
+            n += 1
+            ok = len(a) == 4 and re.match(r"^TokenConfig::token_decimals\(\w+\)$", a[2]) is not None \
+                and re.match(r"^TokenConfig::precision\(\w+\)$", a[3]) is not None \
+                and not re.search(r"token_decimals|precision", a[1])
+            if entry.short.startswith("PriceFeedPrice::"):
+                ok = ok and a[1] == "self.decimals" and re.match(r"^self\.(min_price|max_price|price)$", a[0]) is not None
+            via = "" if entry is cs.fn else " via %s" % cs.fn.short
+            ctx.ob("caller-args:%s:%s" % (entry.short, a[0][:24]), ok,
+                   "%s%s passes try_from_price(%s)" % (entry.short, via, ", ".join(x[:60] for x in a)), where=cs.where())
+    ctx.floor("caller-args", n, 4)
     for nm in ("token_decimals", "precision"):
         g = ctx.fn(r"gmsol_utils::token_config::TokenConfig::%s" % nm)
         if g is not None:
@@ -350,8 +402,10 @@ def _callers(ctx, prog):
     if g is not None:
         oks = [e for bb, k, e in g.exits() if k == "ok"]
         good = len(oks) == 1
+        srcs = {}
         if good:
             flds = dict(oks[0].a[1][0][1].a[1]) if oks[0].k == "agg" and oks[0].a[1][0][1].k == "agg" else {}
-            good = all(nm in flds and re.match(r"^Decimal::try_from_price\(self\.%s_price, " % nm, str(flds[nm])) and flds[nm].k == "try"
-                       for nm in ("min", "max"))
-        ctx.ob("caller-args:try_to_price:min-max", good, "try_to_price builds Price{min: from min_price, max: from max_price}", where=g.where())
+            srcs = {nm: _price_source(prog, flds.get(nm)) for nm in ("min", "max")}
+            good = srcs == {"min": "self.min_price", "max": "self.max_price"}
+        ctx.ob("caller-args:try_to_price:min-max", good, "try_to_price builds Price{min: <- %s, max: <- %s} (want self.min_price / self.max_price)" % (
+            srcs.get("min"), srcs.get("max")), where=g.where())
